@@ -23,9 +23,14 @@ func nsecZeroed(c *Ctx, r *Report, rule string) {
 	}
 	r.fn("packDataNsec")
 	msg := paramOf(fn, "msg")
-	var zeroStores []*ssa.Store
+	var zeroed []ssa.Value // the slices that are zeroed, element by element or with clear()
 	hasOr := false
+	fromMsg := func(x ssa.Value) bool { return anyIn(sliceOf(x), func(v ssa.Value) bool { return v == msg }) }
 	allInstrs(fn, func(in ssa.Instruction) {
+		if call, isCall := in.(*ssa.Call); isCall && calleeNameSSA(&call.Call) == "builtin.clear" && len(call.Call.Args) == 1 && fromMsg(call.Call.Args[0]) {
+			zeroed = append(zeroed, call.Call.Args[0])
+			return
+		}
 		st, ok := in.(*ssa.Store)
 		if !ok {
 			return
@@ -35,7 +40,7 @@ func nsecZeroed(c *Ctx, r *Report, rule string) {
 			return
 		}
 		if k, isK := constIntOf(st.Val); isK && k == 0 {
-			zeroStores = append(zeroStores, st)
+			zeroed = append(zeroed, ia.X)
 		}
 		if b, isB := st.Val.(*ssa.BinOp); isB && b.Op == token.OR {
 			hasOr = true
@@ -47,11 +52,10 @@ func nsecZeroed(c *Ctx, r *Report, rule string) {
 	}
 	okZero := false
 	detail := "no store of zero into the buffer found"
-	for _, st := range zeroStores {
-		ia := st.Addr.(*ssa.IndexAddr)
+	for _, zx := range zeroed {
 		// the zeroed slice: the rest of the buffer, cut at typeBitMapLen(bitmap) when that is shorter
 		bounded, byLen := false, false
-		for v := range sliceOf(ia.X) {
+		for v := range sliceOf(zx) {
 			if sl, ok := v.(*ssa.Slice); ok && sl.High != nil {
 				bounded = true
 				if anyIn(sliceOf(sl.High), callsFunc("typeBitMapLen")) {
